@@ -117,6 +117,20 @@ Wave 3 (loops; groups `line` `fold` `text` -> Gen/BodiesLine.lean, BodiesFold.le
                is `SE.Val.isDT`, `isinstance(x, datetime)` is `SE.Val.isDatetime`, `x + td` is `SE.Val.addDur`, a
                timedelta is the model's Int of seconds (`timedelta(days=1)` = 86400).  A call whose result is unpacked
                (`a, b, c = self.m()`) may be declared external: the values it returned are parameters.
+  parse loop   (wave 5) `Component.from_ical`.  Objects of external classes are OPAQUE type parameters (`C` a component,
+               `P` a parameter map, `F` a value class, `K` a component class, `PV` a parsed value); everything done
+               with them is a parameter (TARGETS).  Python lists of such objects: `x = []`, `x.append(v)`, `if x`,
+               `len(x)`, `x[-1]`, `x[0]`, `v = x.pop()` (IndexError on an empty list), `for v in x`.
+               `c = xs[-1] if xs else None` makes `c` an ALIAS of the top of `xs`: a read is `xs.getLast?` at that
+               point, a mutating method call `c.m(..)` (and `xs[-1].m(..)`) replaces the last element of `xs`
+               by what the method leaves (`modLast`).  `obj.attr = v` on a local object rebinds it through a
+               setter parameter.  `not c or E` / `c and E` on an optional object: E sees the object.
+               GENERAL `try`: `try: BODY except <classes> [as e]: HANDLER .. [else: ELSE]` (no finally; BODY
+               without return/break/continue): BODY is evaluated to an `Except` value; on an exception the
+               first handler whose classes contain it runs (bare `raise` re-raises it, `str(e)` is an
+               opaque message), otherwise ELSE; an exception no handler names propagates.  `[E for v in xs]`
+               whose E can raise is `mapM` (the first exception ends it).  `s.split(',')`.
+               A function that returns a list on one path and an element on another returns a `PyResult`.
   fragments    a target may name a FRAGMENT: the first `for` loop of the function together with the
                constant initialisations directly in front of it; its free variables are parameters and
                its result is the tuple of the variables named in TARGETS.
@@ -140,7 +154,7 @@ LEAN_TYPE = {'Int': 'Int', 'Str': 'Str', 'Bytes': 'Str', 'Bool': 'Bool', 'TD': '
              'Truth': 'Bool', 'Char': 'Char', 'OptInt': 'Option Int', 'Builder': 'Str', 'IntList': 'List Int',
              'Unbound:Int': 'Option Int', 'D': 'Trig', 'OptD': 'Option Trig', 'TDS': 'Int', 'OptTDS': 'Option Int', 'DList': 'List Trig',
              'ATList': 'List AT', 'Comp': 'Comp', 'CompList': 'List Comp', 'Fn:Comp:Bool': 'Comp → Bool', 'Object': 'Unit', 'Vals': 'PyVals', 'Val': 'Val', 'ValList': 'List Val',
-             'Store': 'CDict.Store V', 'StepOut': 'CDict.Store V × CDict.Out V', 'V': 'V', 'OptV': 'Option V', 'Item': 'PyItem', 'ItemList': 'List PyItem', 'EntryList': 'List Entry'}
+             'Store': 'CDict.Store V', 'StepOut': 'CDict.Store V × CDict.Out V', 'V': 'V', 'OptV': 'Option V', 'Msg': 'Unit', 'ExcVal': 'Exc', 'Item': 'PyItem', 'ItemList': 'List PyItem', 'EntryList': 'List Entry'}
 
 
 def lean_type(t):
@@ -149,8 +163,30 @@ def lean_type(t):
         return 'Option (' + ' × '.join(['Option Str'] * int(t[5:])) + ')'
     if t.startswith('Groups'):
         return ' × '.join(['Option Str'] * int(t[6:]))
+    if t.startswith('List:'):
+        inner = lean_type(t[5:])
+        return 'List ' + (f'({inner})' if ' ' in inner else inner)
+    if t.startswith('Opt:'):
+        inner = lean_type(t[4:])
+        return 'Option ' + (f'({inner})' if ' ' in inner else inner)
+    if t.startswith('Result:'):
+        return 'PyResult ' + lean_type(t[7:])
     return LEAN_TYPE.get(t, t)
 
+
+def opaque_types(texts):
+    """the opaque type parameters (single capital names that are no Lean type) mentioned in these Lean types"""
+    known = {'Str', 'Int', 'Bool', 'Nat', 'Unit', 'Py', 'List', 'Option', 'Char', 'Exc', 'TD', 'Trig', 'Comp', 'Val', 'Entry',
+             'PyVals', 'PyItem', 'PyIV', 'PyDate', 'PyTime', 'PyDateTime', 'PyResult', 'Loop', 'Type', 'CDict', 'SE', 'Store', 'Out'}
+    out = []
+    for t in texts:
+        for w in re.findall(r"(?<![\w.'])[A-Z][A-Za-z]*(?![\w.'])", t):
+            if w not in known and w not in out:
+                out.append(w)
+    return out
+
+
+NEVER_FALSE = {'C': ('cal.py', 'Component')}     # opaque type -> the class whose __bool__ must be `return True`
 
 RECORDS = {  # attribute reads: type -> attr -> (lean projection, type)
     'TD': {'days': ('days', 'Int'), 'seconds': ('secondsI', 'Int')},
@@ -180,6 +216,30 @@ LEAN_KEYWORDS = {'at', 'do', 'end', 'from', 'fun', 'have', 'in', 'let', 'open', 
 #                                applied to the named local variables; the expression itself is not translated
 Target = namedtuple('Target', 'file cls fn lean self_type self_attrs externals optional group args fragment ret locals',
                     defaults=('enc', None, None, None, None))
+FROM_ICAL = {
+    'Contentlines.from_ical': ('fun', 'lines_from_ical', ['Str'], 'StrList'),
+    'line.parts': ('ptuple', 'parts', ['line'], ['Str', 'P', 'Str']),
+    'line.raw_value()': ('expr', 'raw_value', ['line'], 'Str'),
+    'component.ignore_exceptions': ('expr', 'ignore_exceptions', ['component'], 'Bool'),
+    'component.errors.append': ('mut', 'errors_append', ['ErrPair']),
+    'component_factory.get(c_name, Component)': ('expr', 'component_class', ['c_name'], 'K'),
+    'c_class': ('callopaque', 'instantiate', 'K', 'C'),
+    "getattr(component, 'name', '')": ('expr', 'name_of', ['component'], 'Str'),
+    'component.name=': ('setattr', 'set_name', 'Str'),
+    'stack[-1].add_component': ('mutlast', 'add_component', ['C']),
+    'isinstance(component, Timezone)': ('expr', 'is_timezone', ['component'], 'Bool'),
+    'in component': ('contains', 'has_property', 'C'),
+    'tzp.cache_timezone_component': ('proc', 'cache_timezone_component', ['C']),
+    'types_factory.for_property': ('fun', 'for_property', ['Str'], 'F'),
+    'factory in (vText, vCategory)': ('expr', 'is_text_class', ['factory'], 'Bool'),
+    'in params': ('contains', 'params_has', 'P'),
+    "factory(factory.from_ical(val, params['TZID']))": ('pexpr', 'decode_tz', ['factory', 'val', 'params'], 'PV'),
+    'factory(factory.from_ical(val))': ('pexpr', 'decode', ['factory', 'val'], 'PV'),
+    "factory(factory.from_ical(vals, params['TZID']))": ('pexpr', 'decode_tz', ['factory', 'vals', 'params'], 'PV'),
+    'factory(factory.from_ical(vals))': ('pexpr', 'decode', ['factory', 'vals'], 'PV'),
+    'parsed_component.params=': ('setattr', 'set_params', 'P'),
+    'component.add': ('mut', 'add', ['Str', 'PV'], {'encode': 0}),
+}
 SED = [('start', 'OptD'), ('end_', 'OptD'), ('duration', 'OptTDS')]
 # how the object operations are spelled for the value type of a group (the hand model's type of date / datetime objects)
 OBJ = {'alarm': {'isdate': 'true', 'isdatetime': '(!(Trig.isDate {x}))', 'add': '(pyAdd {a} {b})'},
@@ -266,6 +326,9 @@ TARGETS = [
             'self.sorted_keys': ('sfun', 'sorted_keys', 'StrList'), 'self.keys': ('sfun', 'keys', 'StrList'),
             'self[]': ('getitem', 'getitem', 'Vals')}, False, 'ser',
            {'recursive': 'Bool', 'sorted': 'Bool'}, None, 'ItemList', {'properties': 'ItemList'}),
+    # ---- the parse loop (C01 / C04 / C09): Component.from_ical.  Everything done with the opaque objects is a parameter
+    Target('cal.py', 'Component', 'from_ical', 'Component_from_ical', None, {}, FROM_ICAL, False, 'parse',
+           {'st': 'Str', 'multiple': 'Bool'}, None, 'Result:C', {'stack': 'List:C', 'comps': 'List:C'}),
     # ---- start / end (C16): the values are the hand model's `SE.Val`; `self._get_start_end_duration()` (the validity
     # checks, which may raise InvalidCalendar) is external: the three values it returned are parameters
     Target('tools.py', None, 'is_date', 'is_date', None, {}, {}, False, 'se', {'dt': 'D'}),
@@ -294,6 +357,7 @@ TARGETS = [
 # a translated expression; lits: possible str literals or None; elts: the components of a tuple display
 V = namedtuple('V', 'lean type lits elts', defaults=(None,))
 Tail = namedtuple('Tail', 'names make')        # what a block continues with when its statements run out
+ALIAS = 'alias'     # V.elts of a variable that is `xs[-1] if xs else None`: (ALIAS, the list's name)
 Done = namedtuple('Done', 'lean params rtype monadic nargs objself func argtypes', defaults=(False, 0, False, None, None))  # a translated function
 SUBVALUE = {'LocalTimezoneMissing': 'localTimezoneMissing', 'ComponentStartMissing': 'componentStartMissing',
             'ComponentEndMissing': 'componentEndMissing', 'InvalidCalendar': 'invalidCalendar',
@@ -341,8 +405,8 @@ def reads(nodes):
 
 def is_append(n):
     """`x.append(v)` on a name"""
-    return isinstance(n, ast.Call) and isinstance(n.func, ast.Attribute) and n.func.attr == 'append' \
-        and isinstance(n.func.value, ast.Name) and len(n.args) == 1 and not n.keywords
+    return isinstance(n, ast.Call) and isinstance(n.func, ast.Attribute) and isinstance(n.func.value, ast.Name) and not n.keywords \
+        and ((n.func.attr == 'append' and len(n.args) == 1) or (n.func.attr == 'pop' and not n.args))
 
 
 def assigned(nodes):
@@ -351,7 +415,9 @@ def assigned(nodes):
     for s in nodes:
         for n in ast.walk(s):
             name = n.id if isinstance(n, ast.Name) and isinstance(n.ctx, ast.Store) else \
-                n.func.value.id if is_append(n) else "out'" if isinstance(n, ast.Yield) else None
+                n.func.value.id if is_append(n) else "out'" if isinstance(n, ast.Yield) else \
+                n.targets[0].value.id if isinstance(n, ast.Assign) and len(n.targets) == 1 and isinstance(n.targets[0], ast.Attribute) \
+                and isinstance(n.targets[0].value, ast.Name) and n.targets[0].value.id != 'self' else None
             if name is not None and name not in out:
                 out.append(name)
     return out
@@ -425,6 +491,7 @@ class Fn:
         self.objself = target.self_type == 'Comp'    # `self` is a tree: definition by pattern matching, Python arguments after it
         self.recursive = False
         self.super_used = False
+        self.handling = []        # Lean names of the exceptions of the handlers being translated
 
     def fail(self, node, what):
         raise Untranslatable(f'{self.qual}: line {getattr(node, "lineno", "?")}: {what}')
@@ -492,6 +559,29 @@ class Fn:
 
     # ------------------------------------------------------------ expressions
 
+    def never_false(self, typ, node):
+        """`if x:` on an optional object tests for None only when the object itself is never false: the class must
+        define `__bool__` as `return True` (looked up in the source on every run)"""
+        where = NEVER_FALSE.get(typ)
+        if where is None:
+            self.fail(node, f'truthiness of an object of the opaque type {typ}')
+        tree = X.parse(os.path.join(self.src_dir, where[0]))
+        for c in ast.walk(tree):
+            if isinstance(c, ast.ClassDef) and c.name != where[1]:
+                for st in c.body:
+                    if isinstance(st, ast.FunctionDef) and st.name in ('__bool__', '__len__'):
+                        self.fail(node, f'truthiness of a {where[1]}: class {c.name} of {where[0]} defines {st.name}')
+        for c in ast.walk(tree):
+            if isinstance(c, ast.ClassDef) and c.name == where[1]:
+                for st in c.body:
+                    if isinstance(st, ast.FunctionDef) and st.name == '__bool__':
+                        body = [b for b in st.body if not (isinstance(b, ast.Expr) and isinstance(b.value, ast.Constant))]
+                        if len(body) == 1 and isinstance(body[0], ast.Return) and isinstance(body[0].value, ast.Constant) \
+                                and body[0].value.value is True:
+                            return
+                        self.fail(node, f'truthiness of a {where[1]}: its __bool__ is not `return True`')
+        self.fail(node, f'truthiness of a {where[1]}: the class defines no __bool__ (a mapping without items is false)')
+
     def truth(self, v, node):
         if v.type == 'Bool':
             return v.lean
@@ -500,6 +590,11 @@ class Fn:
         if v.type in ('Int', 'Str', 'Bytes', 'TD', 'OptStr', 'None', 'OptInt'):
             return f'(truthy {v.lean})'
         if v.type.startswith('Match') or v.type == 'OptD':
+            return f'{v.lean}.isSome'
+        if v.type.startswith('List:'):
+            return f'(!{v.lean}.isEmpty)'
+        if v.type.startswith('Opt:'):
+            self.never_false(v.type[4:], node)
             return f'{v.lean}.isSome'
         if v.type == 'D':
             return 'true'       # a date / datetime object is never false
@@ -510,6 +605,22 @@ class Fn:
         if isinstance(node, ast.BoolOp):
             op = ' && ' if isinstance(node.op, ast.And) else ' || '
             first, env2 = node.values[0], env
+            g0 = first.operand if isinstance(node.op, ast.Or) and isinstance(first, ast.UnaryOp) \
+                and isinstance(first.op, ast.Not) else first if isinstance(node.op, ast.And) else None
+            if isinstance(g0, ast.Name) and g0.id in env and env[g0.id].type.startswith('Opt:') and len(node.values) == 2:
+                x = self.narrow.get(env[g0.id].lean, env[g0.id])
+                if x.type.startswith('Opt:'):       # `not c or E` / `c and E`: E is evaluated only when c is an object
+                    self.never_false(x.type[4:], node)
+                    self.fresh += 1
+                    v = f"n{self.fresh}'"
+                    old = dict(self.narrow)
+                    self.narrow[env[g0.id].lean] = V(v, x.type[4:], None)
+                    try:
+                        e2 = self.lazily(self.test, node.values[1], env)
+                    finally:
+                        self.narrow = old
+                    dflt = 'true' if isinstance(node.op, ast.Or) else 'false'
+                    return f'(match {x.lean} with | none => {dflt} | some {v} => {e2})'
             guard = first.operand if isinstance(node.op, ast.Or) and isinstance(first, ast.UnaryOp) \
                 and isinstance(first.op, ast.Not) else first if isinstance(node.op, ast.And) else None
             if isinstance(guard, ast.Name) and guard.id in env and env[guard.id].type == 'OptInt':
@@ -525,13 +636,17 @@ class Fn:
         return self.truth(v, node)
 
     def expr(self, node, env):
-        whole = self.t.externals.get(ast.unparse(node)) if isinstance(node, (ast.Call, ast.Subscript, ast.Attribute)) else None
+        whole = self.t.externals.get(ast.unparse(node)) if isinstance(node, (ast.Call, ast.Subscript, ast.Attribute, ast.Compare)) else None
         if whole is not None and whole[0] == 'expr' and whole[1] is None:
             return V('()', whole[3], None)      # an external value that the translated code never looks at
-        if whole is not None and whole[0] == 'expr':        # an expression that stays external, as a whole
+        if whole is not None and whole[0] in ('expr', 'pexpr'):        # an expression that stays external, as a whole
             args = [self.expr(ast.parse(n, mode='eval').body, env) for n in whole[2]]
-            f = self.param(whole[1], ' → '.join(lean_type(a.type) for a in args) + ' → ' + lean_type(whole[3]))
-            return V('(' + ' '.join([f.lean] + [a.lean for a in args]) + ')', whole[3], None)
+            if any(a.type.startswith('Opt:') for a in args):
+                self.fail(node, f'`{ast.unparse(node)[:50]}` on a value that may be None')
+            rt = lean_type(whole[3])
+            f = self.param(whole[1], ' → '.join(lean_type(a.type) for a in args) + ' → ' + (f'Py {rt}' if whole[0] == 'pexpr' else rt))
+            lean = ' '.join([f.lean] + [a.lean for a in args])
+            return self.hoist(node, lean, whole[3]) if whole[0] == 'pexpr' else V(f'({lean})', whole[3], None)
         f = getattr(self, 'e_' + type(node).__name__, None)
         if f is None:
             self.fail(node, f'expression {type(node).__name__}: `{ast.unparse(node)[:50]}`')
@@ -566,6 +681,8 @@ class Fn:
             f = self.param(e[1], f'Comp → Str → Py {lean_type(e[2])}')     # CaselessDict.__getitem__: external, may raise
             return self.hoist(node, f"{f.lean} (Comp.mk name' props' subs') {k.lean}", e[2])
         v, sl = self.expr(node.value, env), node.slice
+        if v.type.startswith('List:') and not isinstance(sl, ast.Slice) and ast.unparse(sl) in ('-1', '0'):
+            return self.hoist(node, f'{"listLast" if ast.unparse(sl) == "-1" else "listHead"} {v.lean}', v.type[5:])
         lit = lambda b: b is None or (isinstance(b, ast.Constant) and type(b.value) is int and b.value >= 0)  # noqa: E731
         if v.type != 'Str':
             self.fail(node, f'subscript of a value of type {v.type}')
@@ -625,6 +742,8 @@ class Fn:
 
     def e_List(self, node, env):
         vals = [self.expr(e, env) for e in node.elts]
+        if vals and len({v.type for v in vals}) == 1 and re.fullmatch(r'[A-Z][A-Za-z]*', vals[0].type) and vals[0].type not in LEAN_TYPE and vals[0].type != 'Tuple':
+            return V('[' + ', '.join(v.lean for v in vals) + ']', 'List:' + vals[0].type, None)     # objects of one opaque type
         if vals and all(v.type == 'Tuple' for v in vals):
             return V('([' + ', '.join(self.as_item(v, node).lean for v in vals) + '] : List PyItem)', 'ItemList', None)
         if not vals or any(v.type != 'Str' for v in vals):
@@ -762,6 +881,11 @@ class Fn:
             if b.type == 'Tuple' and all(one(e) for e in b.elts):
                 lst = '[' + ', '.join(X.lchar(next(iter(e.lits))) for e in b.elts) + ']'
                 return V(f'({neg}(({lst} : List Char).contains {a.lean}))', 'Bool', None)
+        if k in ('In', 'NotIn') and a.type == 'Str':
+            e = self.t.externals.get('in ' + ast.unparse(node.comparators[0]))
+            if e is not None and e[0] == 'contains' and b.type == e[2]:     # `'KEY' in obj` on an opaque object
+                f = self.param(e[1], f'{lean_type(e[2])} → Str → Bool')
+                return V(f'({"!" if k == "NotIn" else ""}({f.lean} {b.lean} {a.lean}))', 'Bool', None)
         if a.type == 'Str' and b.type == 'Tuple' and k in ('In', 'NotIn') and all(e.lits is not None for e in b.elts):
             lst = '([' + ', '.join(e.lean for e in b.elts) + '] : List Str)'
             return V(f'({"" if k == "In" else "!"}{lst}.contains {a.lean})', 'Bool', None)
@@ -781,6 +905,11 @@ class Fn:
         return acc
 
     def e_IfExp(self, node, env):
+        if isinstance(node.test, ast.Name) and node.test.id in env and env[node.test.id].type.startswith('List:') \
+                and ast.unparse(node.body) == f'{node.test.id}[-1]' and isinstance(node.orelse, ast.Constant) \
+                and node.orelse.value is None:      # `xs[-1] if xs else None`: the top of the list, or None
+            xs = env[node.test.id]
+            return V(f'{xs.lean}.getLast?', 'Opt:' + xs.type[5:], None, (ALIAS, node.test.id))
         c = self.test(node.test, env)
         a, b = self.lazily(self.expr, node.body, env), self.lazily(self.expr, node.orelse, env)
         if a.type != b.type:
@@ -875,8 +1004,27 @@ class Fn:
                 if t.group == self.t.group and t.cls is None and t.fn == name and (None, name) in self.registry}
 
     def e_ListComp(self, node, env):
-        """`[x for x in xs if x.m()]` over a list of opaque objects whose method `m` is a parameter"""
+        """`[x for x in xs if x.m()]` over a list of opaque objects whose method `m` is a parameter;
+        `[E for v in xs]` whose E can raise: the elements in order, the first exception ends it"""
         g = node.generators[0]
+        if len(node.generators) == 1 and not g.is_async and isinstance(g.target, ast.Name) and not g.ifs:
+            xs = self.expr(g.iter, env)
+            if xs.type in ITER or xs.type.startswith('List:'):
+                et = ITER.get(xs.type) or xs.type[5:]
+                x = lname(g.target.id)
+                keep, self.pre, lazy, self.lazy = self.pre, [], self.lazy, 0
+                try:
+                    elt = self.expr(node.elt, dict(env, **{g.target.id: V(x, et, None)}))
+                    inner = self.pre
+                finally:
+                    self.pre, self.lazy = keep, lazy
+                body = f'pure {elt.lean}'
+                for ln in reversed(inner):       # `let t : T ← e` as `e >>= fun t => ..`
+                    m = re.fullmatch(r"let (\S+) : (.*?) ← (.*)", ln)
+                    body = f'({m.group(3)}) >>= fun ({m.group(1)} : {m.group(2)}) => {body}'
+                if inner:
+                    return self.hoist(node, f'List.mapM (fun {x} => {body}) {xs.lean}', 'List:' + elt.type)
+                return V(f'({xs.lean}.map (fun {x} => {elt.lean}))', 'List:' + elt.type, None)
         if len(node.generators) == 1 and not g.is_async and isinstance(g.target, ast.Name) and len(g.ifs) == 1 \
                 and isinstance(node.elt, ast.Name) and node.elt.id == g.target.id:
             c, xs = g.ifs[0], self.expr(g.iter, env)
@@ -938,6 +1086,32 @@ class Fn:
             if [a.type for a in args] != [at]:
                 self.fail(node, f'call of the function argument `{fn.id}` with {[a.type for a in args]}')
             return V(f'({env[fn.id].lean} {args[0].lean})', rt, None)
+        if isinstance(fn, ast.Attribute) and fn.attr == 'split' and len(node.args) == 1 and not node.keywords \
+                and isinstance(node.args[0], ast.Constant) and isinstance(node.args[0].value, str) and len(node.args[0].value) == 1:
+            x = self.expr(fn.value, env)
+            if x.type == 'Str':
+                return V(f'(splitOnChar {X.lchar(node.args[0].value)} {x.lean})', 'StrList', None)
+        if isinstance(fn, ast.Name) and fn.id in env and self.t.externals.get(fn.id, ('',))[0] == 'callopaque' \
+                and not node.args and not node.keywords:
+            e = self.t.externals[fn.id]         # a local that holds an external class: calling it is a parameter
+            if env[fn.id].type != e[2]:
+                self.fail(node, f'call of `{fn.id}`, a {env[fn.id].type}')
+            f = self.param(e[1], f'{lean_type(e[2])} → {lean_type(e[3])}')
+            return V(f'({f.lean} {env[fn.id].lean})', e[3], None)
+        if callee in self.t.externals and self.t.externals[callee][0] == 'ptuple' and not node.args and not node.keywords:
+            e = self.t.externals[callee]        # an external call that may raise and whose result is unpacked
+            args = [self.expr(ast.parse(n, mode='eval').body, env) for n in e[2]]
+            typ = ' × '.join(lean_type(t) for t in e[3])
+            f = self.param(e[1], ' → '.join([lean_type(a.type) for a in args] + [f'Py ({typ})']))
+            self.fresh += 1
+            r = f"t{self.fresh}'"
+            if self.lazy:
+                raise LazyPartial(f'{self.qual}: `{callee}()` can raise and stands where Python may not evaluate it')
+            if not self.monadic:
+                raise NeedMonad()
+            self.pre.append(f'let {r} : {typ} ← ' + ' '.join([f.lean] + [a.lean for a in args]))
+            n = len(e[3])
+            return V('', 'Tuple', None, [V(r + '.2' * i + ('.1' if i < n - 1 else ''), t, None) for i, t in enumerate(e[3])])
         if isinstance(fn, ast.Attribute) and fn.attr == 'upper' and not node.args and not node.keywords:
             x = self.expr(fn.value, env)
             if x.type == 'Str':     # ASCII upper-casing (the models' convention; Python's is Unicode)
@@ -1124,6 +1298,8 @@ class Fn:
                 return V(f'(utf8Len {c.lean})', 'Int', None)
         if fn.id == 'len' and len(node.args) == 1 and not isinstance(node.args[0], ast.Starred):
             v = self.expr(node.args[0], env)
+            if v.type.startswith('List:'):
+                return V(f'({v.lean}.length : Int)', 'Int', None)
             if v.type == 'Str':
                 return V(f'(strLen {v.lean})', 'Int', None)
             self.fail(node, f'len() of a value of type {v.type}')
@@ -1140,6 +1316,8 @@ class Fn:
                     return V('(' + ' '.join([d.lean] + [p[0] for p in d.params]) + ')', d.rtype, None)
                 self.builtin_method_ok(node, *{'str': ('__str__', '__repr__'), 'abs': ('__abs__',),
                                                'int': ('__int__', '__index__', '__trunc__')}[fn.id])
+            if fn.id == 'str' and v.type == 'ExcVal':
+                return V('()', 'Msg', None)        # the message of an exception is not modelled
             if fn.id == 'str' and v.type == 'Str':
                 return V(v.lean, 'Str', v.lits)
             if v.type == 'Int':
@@ -1159,6 +1337,9 @@ class Fn:
             v = self.coerce(name, v)
         self.narrow.pop(lname(name), None)     # the variable is rebound: what was known about it no longer holds
         self.consts[name] = v.lean if v.lean in ('(0 : Int)', '(1 : Int)') else None    # the literal it holds, if 0 / 1
+        if v.elts is not None and v.elts[0] == ALIAS:       # not copied: every read looks at the list as it is then
+            env[name] = v
+            return env, None
         env[name] = V(lname(name), v.type, v.lits)
         return env, f'let {lname(name)} : {lean_type(v.type)} := {v.lean}'
 
@@ -1220,10 +1401,17 @@ class Fn:
             # statements after a `return` never run (they are there when the rest of the function was appended to
             # a branch that already returned): dropped
             v = self.expr(s.value, env)
+            if (self.t.ret or '').startswith('Result:'):
+                rt = self.t.ret[7:]
+                if v.type == rt:
+                    v = V(f'(PyResult.one {v.lean})', self.t.ret, None)
+                elif v.type == 'List:' + rt:
+                    v = V(f'(PyResult.many {v.lean})', self.t.ret, None)
             if v.type == 'Tuple' and all(e.type != 'Tuple' for e in v.elts):       # a tuple display of values
                 self.rtype_lean = ' × '.join(lean_type(e.type) for e in v.elts)
                 v = V('(' + ', '.join(e.lean for e in v.elts) + ')', 'Tuple:' + self.rtype_lean, None)
-            elif v.type not in ('Str', 'Bytes', 'Int', 'Bool', 'TD', 'PyDate', 'PyTime', 'PyDateTime', 'StrList', 'D', 'OptD', 'DList', 'ATList', 'CompList', 'ItemList', 'StepOut'):
+            elif v.type not in ('Str', 'Bytes', 'Int', 'Bool', 'TD', 'PyDate', 'PyTime', 'PyDateTime', 'StrList', 'D', 'OptD', 'DList', 'ATList', 'CompList', 'ItemList', 'StepOut') \
+                    and not v.type.startswith('Result:'):
                 self.fail(s, f'return of a value of type {v.type}')
             if self.t.ret == 'OptD' and v.type == 'D':       # a present value where the function returns an optional
                 v = V(f'(some {v.lean})', 'OptD', None)
@@ -1245,6 +1433,31 @@ class Fn:
             return self.for_(s, rest, env, tail)
         if isinstance(s, ast.While):
             return self.while_(s, rest, env, tail)
+        if isinstance(s, ast.Expr) and isinstance(s.value, ast.Call):
+            callee = ast.unparse(s.value.func)
+            e = self.t.externals.get(callee)
+            if e is not None and e[0] in ('mut', 'mutlast'):       # a method that mutates an object in place
+                return self.mutate(s, callee, e, rest, env, tail)
+        if isinstance(s, ast.Assign) and len(s.targets) == 1 and isinstance(s.targets[0], ast.Attribute) \
+                and isinstance(s.targets[0].value, ast.Name) and s.targets[0].value.id in env \
+                and self.t.externals.get(ast.unparse(s.targets[0]) + '=', ('',))[0] == 'setattr':
+            e, name = self.t.externals[ast.unparse(s.targets[0]) + '='], s.targets[0].value.id
+            obj, v = env[name], self.expr(s.value, env)
+            if v.type != e[2] or obj.elts is not None or obj.type.startswith('Opt:'):
+                self.fail(s, f'`{ast.unparse(s)[:50]}`: a {v.type} assigned to an attribute of a {obj.type}')
+            f = self.param(e[1], f'{lean_type(obj.type)} → {lean_type(e[2])} → {lean_type(obj.type)}')
+            env, line = self.bind(env, name, V(f'({f.lean} {obj.lean} {v.lean})', obj.type, None))
+            return self.take_pre() + [line] + self.block(rest, env, tail)
+        if isinstance(s, ast.Assign) and len(s.targets) == 1 and isinstance(s.targets[0], ast.Name) \
+                and isinstance(s.value, ast.Call) and isinstance(s.value.func, ast.Attribute) and s.value.func.attr == 'pop' \
+                and not s.value.args and isinstance(s.value.func.value, ast.Name) and s.value.func.value.id in env \
+                and env[s.value.func.value.id].type.startswith('List:'):
+            ln, xs = s.value.func.value.id, env[s.value.func.value.id]     # `v = xs.pop()`
+            p = self.hoist(s, f'listPop {xs.lean}', f'Pair')
+            self.pre[-1] = self.pre[-1].replace(': Pair ←', f': {lean_type(xs.type[5:])} × {lean_type(xs.type)} ←')
+            env, l1 = self.bind(env, s.targets[0].id, V(p.lean + '.1', xs.type[5:], None))
+            env, l2 = self.bind(env, ln, V(p.lean + '.2', xs.type, None))
+            return self.take_pre() + [l1, l2] + self.block(rest, env, tail)
         if isinstance(s, ast.Expr) and isinstance(s.value, ast.Call) and self.dictself \
                 and self.t.externals.get(ast.unparse(s.value.func), ('',))[0] == 'super':
             if rest:
@@ -1265,7 +1478,7 @@ class Fn:
             return self.take_pre() + [f"let out' : List Trig := (out' ++ [{v.lean}])"] + self.block(rest, env, tail)
         if isinstance(s, ast.Expr) and is_append(s.value):
             name = s.value.func.value.id
-            if name not in env or env[name].type not in ('Builder', 'StrList', 'CompList', 'ItemList'):
+            if name not in env or not (env[name].type in ('Builder', 'StrList', 'CompList', 'ItemList') or env[name].type.startswith('List:')):
                 self.fail(s, f'`{name}.append(..)` on something that is not a local list')
             x, v = env[name], self.expr(s.value.args[0], env)
             if x.type == 'Builder' and v.type in ('Str', 'Char'):
@@ -1274,6 +1487,8 @@ class Fn:
                 new = V(f'({x.lean} ++ [{v.lean}])', 'StrList', None)
             elif x.type == 'ItemList' and v.type == 'Tuple':
                 new = V(f'({x.lean} ++ [{self.as_item(v, s).lean}])', 'ItemList', None)
+            elif x.type.startswith('List:') and v.type == x.type[5:]:
+                new = V(f'({x.lean} ++ [{v.lean}])', x.type, None)
             elif (x.type, v.type) in (('CompList', 'Comp'), ('ItemList', 'Item')):
                 new = V(f'({x.lean} ++ [{v.lean}])', x.type, None)
             else:
@@ -1288,6 +1503,8 @@ class Fn:
             env, line = self.bind(env, s.targets[0].id, v)
             return [line] + self.block(rest, env, tail)
         if isinstance(s, ast.Raise):
+            if s.exc is None and self.handling:       # bare `raise` in a handler: the exception being handled
+                return [f'throw {self.handling[-1]}']
             e = s.exc.func if isinstance(s.exc, ast.Call) else s.exc
             if isinstance(e, ast.Name) and e.id in SUBVALUE and self.derives_from_valueerror(e.id):
                 if not self.monadic:
@@ -1340,8 +1557,9 @@ class Fn:
         if isinstance(test, ast.Compare) and len(test.ops) == 1 and isinstance(test.ops[0], (ast.Is, ast.IsNot)) \
                 and isinstance(test.comparators[0], ast.Constant) and test.comparators[0].value is None:
             x, present = test.left, isinstance(test.ops[0], ast.IsNot)
+            by_truth = False
         else:
-            x, present = test, True
+            x, present, by_truth = test, True, True
         if not isinstance(x, (ast.Name, ast.Attribute)) or (isinstance(x, ast.Name) and x.id in self.slots):
             return None
         if isinstance(x, ast.Name) and (x.id not in env or x.id == 'self'):
@@ -1349,12 +1567,130 @@ class Fn:
         if isinstance(x, ast.Attribute) and not (ast.unparse(x).startswith('self.') and ast.unparse(x)[5:] in self.t.self_attrs):
             return None
         v = self.expr(x, env)
+        if v.type.startswith('Opt:') and (v.elts is not None or re.fullmatch(r"[A-Za-z_][\w']*", v.lean)):
+            if by_truth:
+                self.never_false(v.type[4:], test)
+            return v, present != neg
         if v.type not in ('OptD', 'OptTDS', 'OptStr') or not re.fullmatch(r"[A-Za-z_][\w']*", v.lean):
             return None
         return v, present != neg
 
+    def mutate(self, s, callee, e, rest, env, tail):
+        """`obj.m(..)` / `xs[-1].m(..)` where m changes the object in place: the variable (or the top of the list it
+        is an alias of) is rebound to what the method leaves"""
+        call, kws = s.value, (e[3] if len(e) > 3 else {})
+        if [k.arg for k in call.keywords] != list(kws) or any(
+                not (isinstance(k.value, ast.Constant) and k.value.value == kws[k.arg]) for k in call.keywords):
+            self.fail(s, f'keyword arguments of `{callee}(..)` differ from the declared {kws}')
+        args = self.call_args(call, env)
+        if e[2] == ['ErrPair']:         # `(None | name, str(e))`: the name; the message is not modelled
+            a = args[0]
+            if not (len(args) == 1 and a.type == 'Tuple' and len(a.elts) == 2 and a.elts[1].type == 'Msg' and a.elts[0].type in ('None', 'Str')):
+                self.fail(s, f'`{callee}(..)` is not given a pair (name or None, str(exception))')
+            args, want = [V('none' if a.elts[0].type == 'None' else f'(some {a.elts[0].lean})', 'OptStr', None)], ['OptStr']
+        else:
+            want = e[2]
+        if [a.type for a in args] != want:
+            self.fail(s, f'`{callee}(..)` with arguments {[a.type for a in args]}, declared {want}')
+        root = call.func
+        while isinstance(root, ast.Attribute):
+            root = root.value
+        if e[0] == 'mutlast':           # xs[-1].m(..)
+            if not (isinstance(root, ast.Subscript) and isinstance(root.value, ast.Name) and ast.unparse(root.slice) == '-1'):
+                self.fail(s, f'`{callee}` is not a method of `xs[-1]`')
+            lst, alias = root.value.id, True
+        else:
+            if not (isinstance(root, ast.Name) and root.id in env):
+                self.fail(s, f'`{callee}` is not a method of a local object')
+            obj = env[root.id]
+            alias = obj.elts is not None and obj.elts[0] == ALIAS
+            lst = obj.elts[1] if alias else None
+        if alias:
+            xs = env[lst]
+            ct = xs.type[5:]
+            f = self.param(e[1], ' → '.join([lean_type(ct)] + [lean_type(t) for t in want] + [lean_type(ct)]))
+            fn = f'(fun c\' => {f.lean} c\' ' + ' '.join(a.lean for a in args) + ')'
+            new = self.hoist(s, f'modLast {xs.lean} {fn}', xs.type)
+            for k in [k for k, v in env.items() if v.elts is not None and v.elts[0] == ALIAS and v.elts[1] == lst]:
+                self.narrow.pop(env[k].lean, None)      # what was known about the top no longer holds
+            env, line = self.bind(env, lst, new)
+        else:
+            f = self.param(e[1], ' → '.join([lean_type(obj.type)] + [lean_type(t) for t in want] + [lean_type(obj.type)]))
+            env, line = self.bind(env, root.id, V('(' + ' '.join([f.lean, obj.lean] + [a.lean for a in args]) + ')', obj.type, None))
+        return self.take_pre() + [line] + self.block(rest, env, tail)
+
+    def handler_classes(self, h, s):
+        names = [] if h.type is None else [ast.unparse(x) for x in (h.type.elts if isinstance(h.type, ast.Tuple) else [h.type])]
+        if h.type is None or 'Exception' in names or 'BaseException' in names:
+            return None         # everything
+        if names == ['ValueError'] and 'ValueError' not in self.modnames:
+            return 'valueErrors'
+        if all(n in EXC and n not in self.modnames for n in names):
+            return '[' + ', '.join('.' + c for n in names for c in EXC[n]) + ']'
+        self.fail(s, f'handler for `{", ".join(names)}`')
+
+    def try_general(self, s, rest, env, tail):
+        """`try: BODY except <classes> [as e]: HANDLER .. [else: ELSE]`"""
+        if s.finalbody or any(isinstance(n, (ast.Return, ast.Break, ast.Continue)) for st in s.body for n in ast.walk(st)):
+            self.fail(s, 'try with finally, or with return / break / continue in its body')
+        if not self.monadic:
+            raise NeedMonad()
+        ind = lambda ls: ['  ' + x for x in ls]   # noqa: E731
+        later = reads(s.orelse + rest) | set(tail.names)
+        merged = [n for n in self.assigned_env(s.body, env) if n in later]
+        ends = []
+
+        def make(e):
+            for n in merged:
+                if n not in e:
+                    self.fail(s, f'`{n}` is read later but not bound on every path of the try body')
+            ends.append([e[n] for n in merged])
+            return ['pure (' + ', '.join(e[n].lean for n in merged) + ')']
+        self.fresh += 1
+        r = f"r{self.fresh}'"
+        body = self.block(s.body, env, Tail(merged, make))
+        body[-1] += ')'
+        typ = ' × '.join(lean_type(x.type) for x in ends[0]) if merged else 'Unit'
+        lines = [f'let {r} : Py ({typ}) := (do'] + ind(body) + [f'match {r} with']
+        # the exception: the first handler that names it
+        self.fresh += 1
+        ev = f"e{self.fresh}'"
+        lines.append(f'| .error {ev} =>' + (' do' if self.monadic else ''))
+        hl, depth = [], 0
+        for h in s.handlers:
+            cls = self.handler_classes(h, s)
+            henv = dict(env)
+            if h.name:
+                henv[h.name] = V(ev, 'ExcVal', None)
+            self.handling.append(ev)
+            try:
+                hb = self.block(h.body + rest, henv, tail)
+            finally:
+                self.handling.pop()
+            if cls is None:
+                hl += ind(hb) if depth else hb
+                break
+            hl += ['  ' * depth + f'if caught {cls} {ev} then'] + ['  ' * (depth + 1) + x for x in hb] + ['  ' * depth + 'else']
+            depth += 1
+        else:
+            hl.append('  ' * depth + f'throw {ev}')
+        lines += ind(hl)
+        lines.append(f"| .ok v{r} =>" + (' do' if self.monadic else ''))
+        oenv, ol = env, []
+        for i, (n, x) in enumerate(zip(merged, ends[0])):
+            proj = f'v{r}' if len(merged) == 1 else f'v{r}' + '.2' * i + ('.1' if i < len(merged) - 1 else '')
+            oenv, line = self.bind(oenv, n, V(proj, x.type, x.lits))
+            ol.append(line)
+        lines += ind(ol + self.block(s.orelse + rest, oenv, tail))
+        return lines
+
     def try_(self, s, rest, env, tail):
         """`try: BODY except <classes>: raise ValueError(...)`"""
+        simple = len(s.handlers) == 1 and not s.orelse and len(s.handlers[0].body) == 1 and isinstance(s.handlers[0].body[0], ast.Raise) \
+            and s.handlers[0].body[0].exc is not None
+        ascii_shape = len(s.body) == 1 and isinstance(s.body[0], ast.Expr) and 'encode(' in ast.unparse(s.body[0])
+        if not simple and not ascii_shape:
+            return self.try_general(s, rest, env, tail)
         h = s.handlers[0] if len(s.handlers) == 1 else None
         b = s.body[0].value if len(s.body) == 1 and isinstance(s.body[0], ast.Expr) else None
         if h is not None and isinstance(b, ast.Call) and isinstance(b.func, ast.Attribute) and b.func.attr == 'encode' \
@@ -1394,7 +1730,7 @@ class Fn:
             body[-1] += ')'
             return [f'{wrap} (do'] + ind(body)
         later = reads(rest) | set(tail.names)
-        merged = [n for n in assigned(s.body) if n in later]
+        merged = [n for n in self.assigned_env(s.body, env) if n in later]
         ends = []
 
         def make(e):
@@ -1433,7 +1769,7 @@ class Fn:
             old = dict(self.narrow)
             some_b, none_b = (s.body, s.orelse) if present_first else (s.orelse, s.body)
             nb = self.block(none_b + rest, env, tail)
-            self.narrow[x.lean] = V(v, {'OptD': 'D', 'OptTDS': 'TDS', 'OptStr': 'Str'}[x.type], None)
+            self.narrow[x.lean] = V(v, x.type[4:] if x.type.startswith('Opt:') else {'OptD': 'D', 'OptTDS': 'TDS', 'OptStr': 'Str'}[x.type], None)
             try:
                 sb = self.block(some_b + rest, env, tail)
             finally:
@@ -1461,7 +1797,7 @@ class Fn:
             b = self.block(s.orelse + rest, env, tail)
             return pre + [f'if {c} then'] + ind(a) + ['else'] + ind(b)
         later = reads(rest) | set(tail.names)
-        merged = [n for n in assigned(s.body + s.orelse) if n in later]
+        merged = [n for n in self.assigned_env(s.body + s.orelse, env) if n in later]
         ends_a, ends_b = [], []
 
         def maker(store):
@@ -1570,7 +1906,7 @@ class Fn:
             itv = self.expr(it, env)
         if itv.type == 'Vals':      # iterating what `self[name]` gave: a TypeError unless it is a list
             itv = self.hoist(s, f'PyVals.elems {itv.lean}', 'ValList')
-        if itv.type not in ITER or s.orelse:
+        if not (itv.type in ITER or itv.type.startswith('List:')) or s.orelse:
             self.fail(s, f'`for` over a value of type {itv.type}' if itv.type not in ITER else '`for .. else`')
         return self.loop(s, rest, env, tail, iname, cname, itv, None)
 
@@ -1595,7 +1931,9 @@ class Fn:
             self.fail(s, 'nested loop with break / continue / return')
         pre0 = self.take_pre()
         targets = {iname, cname} - {None}
-        asg = assigned(s.body)
+        asg = self.assigned_env(s.body, env)
+        stored = {n.id for st in s.body for n in ast.walk(st) if isinstance(n, ast.Name) and isinstance(n.ctx, ast.Store)}
+        asg = [n for n in asg if not (n in targets and n not in stored)]    # `v.attr = x` on the loop variable: local to the iteration
         if targets & set(asg):
             self.fail(s, 'the loop body assigns the loop variable')
         state = [n for n in asg if n in env and n not in targets]
@@ -1634,11 +1972,15 @@ class Fn:
         word = lambda n: re.search(r"(?<![\w'.])" + re.escape(n) + r"(?![\w'])", text) is not None   # noqa: E731
         inner = {lname(n) for n in state} | {lname(x) for x in targets} | {"rest'", "fuel'"}
         caps = []
-        for n, typ in ([("name'", 'Str'), ("props'", 'EntryList'), ("subs'", 'CompList')] if self.objself else [(p, t) for p, t in self.used]) + [(v.lean, v.type) for v in env.values() if v.type != 'Tuple'] \
+        for n, typ in ([("name'", 'Str'), ("props'", 'EntryList'), ("subs'", 'CompList')] if self.objself else [(p, t) for p, t in self.used]) + [(v.lean, v.type) for v in env.values() if v.type != 'Tuple' and v.elts is None] \
                 + [(v.lean, v.type) for v in self.narrow.values()]:
             if re.fullmatch(r"[A-Za-z_][\w']*", n) and n not in inner and word(n) and n not in [c[0] for c in caps]:
                 caps.append((n, typ))
         capsig = ('«EXTSIG»' if self.objself else '') + ''.join(f' ({n} : {lean_type(t)})' for n, t in caps)
+        if self.t.group == 'parse':     # the opaque types the loop mentions
+            ops = opaque_types([lean_type(t) for _, t in caps] + [lean_type(slots[n]) for n in state]
+                               + ([lean_type(itv.type)] if itv is not None else []))
+            capsig = ''.join(f' {{{o} : Type}}' for o in ops) + capsig
         capargs = ('«EXT»' if self.objself else '') + ''.join(' ' + n for n, _ in caps)
         body = [ln.replace(' «CAP»', capargs) for ln in body]
         sigma = [lean_type(slots[n]) for n in state] + (['Option Int'] if last else [])
@@ -1702,12 +2044,42 @@ class Fn:
         finally:
             self.slots = keep
 
+    def assigned_env(self, stmts, env):
+        """`assigned`, and the lists changed by a mutating call on their top (`xs[-1].m(..)`, or `c.m(..)` where `c` is
+        an alias of `xs[-1]`)"""
+        asg = assigned(stmts)
+        for st in stmts:
+            for n in ast.walk(st):
+                if isinstance(n, ast.Call) and self.t.externals.get(ast.unparse(n.func), ('',))[0] in ('mut', 'mutlast'):
+                    root = n.func
+                    while isinstance(root, ast.Attribute):
+                        root = root.value
+                    lst = root.value.id if isinstance(root, ast.Subscript) and isinstance(root.value, ast.Name) else \
+                        env[root.id].elts[1] if isinstance(root, ast.Name) and root.id in env and env[root.id].elts is not None \
+                        and env[root.id].elts[0] == ALIAS else None
+                    if lst is None and isinstance(root, ast.Name):
+                        lst = next((v.elts[1] for k, v in self.alias_in(stmts).items() if k == root.id), None)
+                    if lst is not None and lst not in asg:
+                        asg.append(lst)
+        return asg
+
+    def alias_in(self, stmts):
+        """variables assigned `xs[-1] if xs else None` inside these statements -> V-like with the list's name"""
+        out = {}
+        for st in stmts:
+            for n in ast.walk(st):
+                if isinstance(n, ast.Assign) and len(n.targets) == 1 and isinstance(n.targets[0], ast.Name) \
+                        and isinstance(n.value, ast.IfExp) and isinstance(n.value.test, ast.Name) \
+                        and ast.unparse(n.value.body) == f'{n.value.test.id}[-1]':
+                    out[n.targets[0].id] = V('', '', None, (ALIAS, n.value.test.id))
+        return out
+
     def loop_body(self, s, env, state, slots, name, iname, cname, last, inner_ret, fuel, itv=None):
         benv = dict(env)
         for n in state:
             benv[n] = V(lname(n), slots[n], None)
         if cname:
-            benv[cname] = V(lname(cname), ITER[itv.type] if itv is not None else 'Char', None)
+            benv[cname] = V(lname(cname), (ITER.get(itv.type) or itv.type[5:]) if itv is not None else 'Char', None)
         if iname:
             benv[iname] = V(lname(iname), 'Int', None)
         cur = lambda e: [e[n].lean for n in state]   # noqa: E731
@@ -1844,6 +2216,14 @@ HEADERS['alarm'] = ['/- GENERATED by tools/py2lean.py (called from tools/extract
                     '   are the partial functions of ICal/Model/PyRTAlarm.lean; a test for None on an optional value is a `match`. -/',
                     'import ICal.Model.PyRTAlarm', 'set_option linter.unusedVariables false', 'namespace ICal.Gen.BodiesAlarm',
                     'open ICal ICal.PyRT ICal.Alarms', '']
+NAMESPACE['parse'] = 'ICal.Gen.BodiesParse'
+HEADERS['parse'] = ['/- GENERATED by tools/py2lean.py (called from tools/extract.py) from Component.from_ical of src/icalendar/cal.py.',
+                    '   Do not edit: regenerated on every run; lean/ICal/Lemmas/BodiesParse.lean proves it equal to the hand-written',
+                    '   model (ICal/Model/Parse.lean: `pstep`, `prun`, `parseLinesP`).  The objects it handles (components `C`, parameter',
+                    '   maps `P`, value classes `F`, component classes `K`, parsed values `PV`) are opaque; everything done with them',
+                    '   is a parameter.  `component = stack[-1] if stack else None` is an alias of the top of the stack. -/',
+                    'import ICal.Model.PyRT', 'set_option linter.unusedVariables false',
+                    'namespace ICal.Gen.BodiesParse', 'open ICal ICal.PyRT', '']
 NAMESPACE['se'] = 'ICal.Gen.BodiesSE'
 HEADERS['se'] = ['/- GENERATED by tools/py2lean.py (called from tools/extract.py) from Event.end / Todo.end of src/icalendar/cal.py and',
                  '   tools.is_date. Do not edit: regenerated on every run; lean/ICal/Lemmas/BodiesSE.lean proves each equal to the',
@@ -1936,6 +2316,8 @@ def translate(src_dir, group='enc'):
                 src_of[e[1]] = f'{f}(..): None or the groups'
             elif e[0] in ('proc', 'pfun'):
                 src_of[e[1]] = f'the function {f} (external; it may raise)'
+            elif e[0] in ('ptuple', 'pexpr', 'mut', 'mutlast', 'setattr', 'contains', 'callopaque'):
+                src_of[e[1]] = f'`{f}` (external)' + (' - it may raise' if e[0] in ('ptuple', 'pexpr') else '')
             elif e[0] == 'tuple':
                 for k, (pn, _) in enumerate(e[1]):
                     src_of[pn] = f'value {k + 1} of what {f}() returned (external; the call may raise)'
@@ -1966,6 +2348,8 @@ def translate(src_dir, group='enc'):
         sig = ''.join(f' ({p} : {lean_type(ty)})' for p, ty in fn.used)
         opaque = sorted({e[3] for e in t.externals.values() if isinstance(e[0], str) and e[0] in ('pfun', 'expr') and e[3] not in LEAN_TYPE and e[3] != 'Object'})
         opaque = sorted(set(opaque) | {o for o in ('AT',) if re.search(r'\b' + o + r'\b', sig)})
+        if group == 'parse':
+            opaque = opaque_types([lean_type(ty) for _, ty in fn.used] + [lean_type(fn.rtype)])
         sig = ''.join(f' {{{o} : Type}}' for o in opaque) + sig
         rt = fn.rtype_lean or lean_type(fn.rtype)
         res_t = "Py (" + rt + ")" if fn.monadic and " " in rt else "Py " + rt if fn.monadic else rt
